@@ -14,6 +14,18 @@ PROPS = {
                 "code. Distinct = distinct operation lines; every one exercises the codec (non-trivial).",
         "assumptions": CODEC_ASSUME + ["the registry contains exactly the versions registered by importing go/v1 and go/v2"],
     },
+    "C09": {
+        "kind": "codec", "modules": ["OAP.Props.C09"], "gens": ["C09"],
+        "rule": "marshalString on the boundary lengths + 500 random lengths (thorough: EVERY length 0..32768); unmarshalStringLength on ALL 2^16 "
+                "two-byte prefixes and all one-byte inputs; UnmarshalValues on canonical encodings of generated maps, every truncation point of them, "
+                "two-byte prefix classes with enough / not enough payload, dangling keys, random and mutated blocks; MarshalValues on generated maps "
+                "(0..40 entries, string lengths from the boundary set, empty and over-long keys/values, invalid UTF-8, mixed case) x budgets around "
+                "every cumulative pair boundary, each map encoded 9 times in different insertion orders; Set guards. Every result is compared with "
+                "the Lean model and the property predicates (round trip, budget, whole pairs, determinism, canonical rejection) are evaluated on the "
+                "real code. Distinct = distinct operation lines with non-empty input.",
+        "assumptions": CODEC_ASSUME + ["strings.ToLower is a parameter of the model (arbitrary function in every theorem); the comparator applies the real one",
+                                       "Go map semantics (unique keys, later insertion wins) and sort.Strings (bytewise order) are modelled, not verified"],
+    },
 }
 
 
